@@ -1,7 +1,7 @@
 (* Entry points evaluated by the extracted driver: one harness case -> one report line. *)
 From Coq Require Import Ascii String.
 From Coq Require Import List NArith ZArith QArith Bool Arith.
-From V Require Import Str Num Tok Tables Items Read Decode Bytes WellFormed Doc Case Paginate Pipeline Document Checks.
+From V Require Import Str Num Tok Tables Items Read Decode Bytes WellFormed Doc Case Paginate Pipeline Document TextSpec Checks.
 Import ListNotations.
 Local Open Scope string_scope.
 Local Open Scope list_scope.
@@ -186,6 +186,38 @@ Definition run_c10 (id : str) (d : doc) (impl : sexp) (extra : sexp) : str :=
   | _ => line [kv "id" id; kv "bad" (s2l "impl")]
   end.
 
+(* C11: extra = list of (tag, text, convert) probes *)
+Definition dProbe : dec (str * str * bool) := fun e =>
+  match e with
+  | SList [a; b; c] =>
+    match dStr a, dStr b, dBool c with
+    | Some x, Some y, Some z => Some (x, y, z)
+    | _, _, _ => None
+    end
+  | _ => None
+  end.
+
+Fixpoint worst (l : list nat) (i : nat) (best : nat * nat) : nat * nat :=
+  match l with
+  | [] => best
+  | c :: r =>
+    let rank x := match x with 2 => 3 | 1 => 2 | 7 => 1 | _ => 0 end%nat in
+    worst r (S i) (if Nat.ltb (rank (fst best)) (rank c) then (c, i) else best)
+  end.
+
+Definition run_c11 (id : str) (d : doc) (impl : sexp) (extra : sexp) : str :=
+  match dList dProbe extra with
+  | None => line [kv "id" id; kv "bad" (s2l "extra")]
+  | Some probes =>
+    with_parsed id d impl (fun pd =>
+      let bodies := map events_of_tokens (all_bodies pd) in
+      let classes := map (fun p => let '(tag, text, conv) := p in probe_class bodies tag text conv) probes in
+      let '(cl, idx) := worst classes 0 (0%nat, 0%nat) in
+      [kv "holds" (bool_str (Nat.eqb cl 0)); kv "clause" (nat_str cl); kv "probe" (nat_str idx);
+       kv "agree" (bool_str (items_agree d pd));
+       kv "classes" (join [44%N] (map nat_str classes))])
+  end.
+
 Definition run_case (e : sexp) : str :=
   match e with
   | SList [SStr mode; SStr id; de; impl] =>
@@ -235,6 +267,7 @@ Definition run_case' (e : sexp) : str :=
   | SList [SStr mode; SStr id; de; impl; extra] =>
     match dDoc de with
     | Some d => if str_eqb mode (s2l "c10") then run_c10 id d impl extra
+                else if str_eqb mode (s2l "c11") then run_c11 id d impl extra
                 else line [kv "id" id; kv "bad" (s2l "mode5")]
     | None => line [kv "id" id; kv "bad" (s2l "decode")]
     end
